@@ -43,9 +43,31 @@ package par1
 //@   pure
 //@   ensures result == 56
 
+// C10/C04 (file names): the 16-bit code units handed to the standard UTF-16 decoder are exactly
+// the little-endian words of the entry's name field, every decoded rune is re-encoded by the
+// standard UTF-8 encoder in order. (The codec itself is the library's: a replacement codec has no
+// contract and fails the call-site obligations.)
 //@ func decodeUTF16LEString
-//@   props C13 C19 C10
+//@   props C13 C19 C10 C04
 //@   modifies nothing
+//@   assert-call unicode/utf16.Decode : len(arg0) == len(bs)/2 && forall(q, 0, len(arg0), arg0[q] == uint16(bs[2*q]) + uint16(bs[2*q+1])<<8)
+//@   assert-call unicode/utf8.EncodeRune : arg1 == runes[i]
+//@   loop 0
+//@     invariant len(u16s) == len(bs)/2 && fresh(u16s)
+//@     invariant forall(q, 0, i, u16s[q] == uint16(bs[2*q]) + uint16(bs[2*q+1])<<8)
+
+// The name field written for an entry is the little-endian byte image of what the standard
+// UTF-16 encoder returns for the runes of the name.
+//@ func encodeUTF16LEString
+//@   props C10 C04 C13
+//@   modifies nothing
+//@   assert-call unicode/utf16.Encode : true
+//@   ensures len(result) == 2*len(u16s) && forall(q, 0, len(u16s), result[2*q] == byte(u16s[q]) && result[2*q+1] == byte(u16s[q] >> 8))
+//@   loop 0
+//@     invariant cap(runes) == 0 || fresh(runes)
+//@   loop 1
+//@     invariant len(bs) == 2*len(u16s) && fresh(bs)
+//@     invariant forall(q, 0, i, bs[2*q] == byte(u16s[q]) && bs[2*q+1] == byte(u16s[q] >> 8))
 
 //@ func readFileEntry
 //@   props C13 C19 C10
@@ -242,3 +264,9 @@ package par1
 //@   ensures implies(gIOFailed && !old(gIOFailed), result != nil)
 //@   loop 0
 //@     invariant gIOFailed == old(gIOFailed)
+
+//@ func (*fileEntryStatus).setSavedInVolumeSet
+//@   props C10 C04
+//@   modifies *s
+//@   ensures implies(saved, *s & 1 == 1)
+//@   ensures implies(!saved, *s == 0)
